@@ -72,6 +72,9 @@ func snisOf(ops []string) []string {
 
 // crtNames: identity `file#hash` of Snapshot.Crt -> `ns/name@version` for every secret version up to 9
 func crtName(content string) string {
+	if n, ok := world.ContentName(content); ok {
+		return n
+	}
 	content = strings.TrimSpace(content)
 	if content == "FAKE" {
 		return "default"
